@@ -79,6 +79,11 @@ func c04One(r *fw.Rec, id, x string) {
 		}
 		r.Violate(fw.Violation{Key: "identity/" + id + "/" + classify(cls), Input: x, What: p})
 	}
+	// the lists of the module (operands, incoming values, cases, fields) have
+	// storage of their own: none reaches into another behind its end
+	if what := overlappingSlices(m); what != "" {
+		r.Violate(fw.Violation{Key: "identity/" + id + "/lists-share-storage", Input: x, What: what})
+	}
 	// binding: a blockaddress must name, when printed, the block the text named
 	// (being *a* block of the function is not enough)
 	if strings.Contains(x, "blockaddress(") && len(c.Problems) == 0 {
